@@ -87,6 +87,8 @@ def scenarios(ctx):
         else:
             quartet = rng.random() < 0.4
             ped = [["s1", "s2", "s3"]] + ([["s1", "s2", "s4"]] if quartet else [])
+            if rng.random() < 0.4:
+                ped = PW.shuffle_roles(rng, ped, [f"s{k + 1}" for k in range(4 if quartet else 3)])
             w = PW.rand_world(rng, nsamples=4 if quartet else 3, nchroms=1, ped=ped, max_sites=rng.choice([5, 8]),
                               het_prob=rng.choice([0.5, 0.8, 1.0]), depth=(1, 2), gap_prob=0.3, kinds=("snv",),
                               read_none_prob=rng.choice([0.0, 0.4]))
